@@ -28,7 +28,10 @@ S_SUCCEEDED, S_FAILED = 23, 24
 
 
 def _stat_of(path):
-    st = os.stat(path)
+    try:
+        st = os.stat(path)
+    except OSError as exc:
+        return {"error": type(exc).__name__}
     return {"ino": st.st_ino, "mtime_ns": st.st_mtime_ns, "size": st.st_size, "mode": st.st_mode}
 
 
@@ -84,7 +87,10 @@ async def _one_kind(how, between_builds):
             first = Path("data.txt").read_bytes()
             if build[0] == 1 and not between_builds:
                 replace(7)
-            second = Path("data.txt").read_bytes()
+            try:
+                second = Path("data.txt").read_bytes()
+            except OSError as exc:           # replaced by a directory / a dangling link
+                second = f"<{type(exc).__name__}>".encode()
             log["reads"].append([build[0], first.decode(), second.decode()])
             Path("result.txt").write_bytes(first + b"|" + second)
         return ChildOutcome(0, "", "")
@@ -121,7 +127,7 @@ async def _one_kind(how, between_builds):
                 states = dict(con.execute("SELECT label, state FROM node JOIN step ON node.i = step.node").fetchall())
                 con.close()
                 out[f"c_state{b}"] = states.get("c")
-                out[f"data{b}"] = Path("data.txt").read_text()
+                out[f"data{b}"] = Path("data.txt").read_text() if Path("data.txt").is_file() else None
                 out[f"result{b}"] = Path("result.txt").read_text() if Path("result.txt").exists() else None
         finally:
             ex.launch_command = old_launch
